@@ -314,6 +314,27 @@ fn run_case(rec: &mut Rec, d: &Value) {
             }
             rec.ev("graph", json!({ "pairs": pairs }));
         }
+        // the named web colours (WebColors trait): the table of every RGB type against the Rgb888 table
+        "css" => {
+            fn tab<T: Cx>(v: Vec<(&'static str, T)>) -> Vec<(&'static str, [u8; 3])> {
+                v.into_iter().map(|(n, c)| (n, c.chans())).collect()
+            }
+            let reference = tab(egv::css_colors!(Rgb888));
+            let tables: Vec<(&str, Vec<(&'static str, [u8; 3])>)> = vec![
+                ("Rgb555", tab(egv::css_colors!(Rgb555))), ("Bgr555", tab(egv::css_colors!(Bgr555))),
+                ("Rgb565", tab(egv::css_colors!(Rgb565))), ("Bgr565", tab(egv::css_colors!(Bgr565))),
+                ("Rgb666", tab(egv::css_colors!(Rgb666))), ("Bgr666", tab(egv::css_colors!(Bgr666))),
+                ("Bgr888", tab(egv::css_colors!(Bgr888))),
+            ];
+            for (ty, t) in tables {
+                let items: Vec<Value> = t.iter().zip(reference.iter()).map(|((n, c), (rn, r))| {
+                    assert_eq!(n, rn);
+                    json!([r[0], r[1], r[2], c[0], c[1], c[2]])
+                }).collect();
+                rec.ev("css", json!({"to": ty, "items": items}));
+            }
+            rec.nontrivial();
+        }
         "pair" => {
             let (from, to) = (d["from"].as_str().unwrap(), d["to"].as_str().unwrap());
             with_type!(from, lvl2, to, rec, d);
@@ -334,6 +355,7 @@ fn main() {
         rec.finish(json!({}));
         return;
     }
+    run_case(&mut rec, &json!({"k": "css"}));
     for d in args.gen.iter().chain(args.witnesses.iter()) {
         run_case(&mut rec, d);
     }
